@@ -1,8 +1,11 @@
 """usage: python3-vt tools/mkneutral.py <key> "<target functions>"  -- prompt + worktree for a behaviour-preserving refactoring agent"""
 import subprocess, sys
 key, targets = sys.argv[1], sys.argv[2]
+kind = sys.argv[3] if len(sys.argv) > 3 else None
 wt = '/tmp/wt-%s' % key
-T = open('/verif/tools/prompt_neutral.txt').read()
+T = open('/verif/tools/prompt_light.txt' if kind else '/verif/tools/prompt_neutral.txt').read()
+if kind:
+    T = T.replace('{KIND}', kind)
 open('/tmp/prompt-%s.txt' % key, 'w').write(T.replace('{WT}', wt).replace('{KEY}', key).replace('{TARGETS}', targets))
 subprocess.run(['git', '-C', '/repo', 'worktree', 'add', '--detach', '-f', wt, 'HEAD'], check=True, stdout=subprocess.DEVNULL, stderr=subprocess.DEVNULL)
 subprocess.run(['cp', '/repo/bct/algorithms/motif34lib.mat', wt + '/bct/algorithms/'], check=False)
